@@ -425,6 +425,17 @@ func (c *Ctx) Run(tier string) {
 		c.Check(&Case{W1: 0, W2: 9, Size: 13, Procs: 300, Cycles: 66000, Len: 4, Fixed: 6, Rounds: 2, Note: "-c 66000 -p 300"})
 		c.Check(&Case{W1: 2, W2: 9, Size: 100003, Procs: 70000, Cycles: 150000, Len: 4, Fixed: 50000, Rounds: 1, Note: "-s 100003 -p 70000 -c 150000"})
 	}
+	// -F at and above the core size (a placement is any non-negative number; it is reduced modulo the core size)
+	if c.Sh.I == 3%c.Sh.N {
+		for _, pr := range [][2]int{{9, 1}, {1, 9}, {0, 1}, {3, 4}, {2, 9}} {
+			for _, s := range []int{13, 8000} {
+				for _, F := range []int{s, s + 1, s + 6, 2 * s, 3*s + 5, 10*s + s/2} {
+					c.Check(&Case{W1: pr[0], W2: pr[1], Size: s, Procs: 8, Cycles: 40, Len: 4, Fixed: F, Rounds: 2, Note: "-F at or above the core size"})
+					c.Check(&Case{W1: pr[0], W2: pr[1], Size: s, Procs: 8, Cycles: 40, Len: 4, Legacy: true, Fixed: F, Rounds: 1, Note: "-F at or above the core size"})
+				}
+			}
+		}
+	}
 	// values between the grid's boundaries: mid-sized and power-of-two cores, -r 7 and 10, -c 12345, -l 100
 	if c.Sh.I == 1%c.Sh.N {
 		for _, k := range []*Case{
@@ -445,7 +456,7 @@ func (c *Ctx) Run(tier string) {
 			c.Check(k)
 		}
 	}
-	rep.Bound += "; one-warrior runs; -c 70000, -c 66000 -p 300, and -s 100003 -p 70000 -c 150000 (values beyond 16 bits); runs with values between the grid's boundaries (-s 256 / 800 / 4096 / 8000 / 55440 / 65536, -p 63 / 64 / 1000 / 8000 / 10000, -c 500 / 999 / 12345 / 20000, -l 20 / 100, -r 3 / 5 / 7 / 10), and -r 255 / 1025 / 4097 / 70000 on a one-cycle battle"
+	rep.Bound += "; -F at and above the core size (M, M+1, M+6, 2M, 3M+5, 10.5M for M in {13, 8000}, 5 pairs, both dialects); one-warrior runs; -c 70000, -c 66000 -p 300, and -s 100003 -p 70000 -c 150000 (values beyond 16 bits); runs with values between the grid's boundaries (-s 256 / 800 / 4096 / 8000 / 55440 / 65536, -p 63 / 64 / 1000 / 8000 / 10000, -c 500 / 999 / 12345 / 20000, -l 20 / 100, -r 3 / 5 / 7 / 10), and -r 255 / 1025 / 4097 / 70000 on a one-cycle battle"
 	// presets
 	names := []string{"88", "icws", "nop94", "noptiny", "nop256", "nopnano"}
 	// imp vs imp runs to the preset's cycle limit (a tie); the ring fills the preset's process limit
